@@ -330,6 +330,33 @@ Proof.
   unfold rec_ok; cbn. repeat split; intros; try congruence.
 Qed.
 
+(* UNSUBSCRIBE: the subscription to that topic is gone, every other one and everything else of the session stay;
+   other sessions are untouched; afterwards a publish on the topic is neither handed nor queued to the session *)
+Lemma unsubscribe_state s id t c : s_conn (get id (sess s)) = Some c ->
+  let r := get id (sess s) in
+  let s' := fst (unsubscribe s id t) in
+  let r' := get id (sess s') in
+  s_subs r' = filter (fun k => negb (N.eqb (sub_topic k) t)) (s_subs r) /\
+  s_conn r' = s_conn r /\ s_queue r' = s_queue r /\ s_durable r' = s_durable r /\ s_expiry r' = s_expiry r /\
+  s_will r' = s_will r /\ s_present r' = s_present r /\
+  (forall j, j <> id -> get j (sess s') = get j (sess s)) /\
+  (forall self tag, pub_out self tag t r' = [] /\ pub_rec self tag t r' = r').
+Proof.
+  intros Hc. cbn zeta. unfold unsubscribe. rewrite Hc. cbn [fst sess]. rewrite get_put_same. cbn.
+  repeat split; try reflexivity.
+  - intros j Hj. apply get_put_other. congruence.
+  - unfold pub_out. cbn [s_subs s_conn].
+    assert (H : existsb (smatch self t) (filter (fun k => negb (N.eqb (sub_topic k) t)) (s_subs (get id (sess s)))) = false).
+    { induction (s_subs (get id (sess s))) as [|k l IH]; [reflexivity|]. cbn [filter].
+      destruct (N.eqb (sub_topic k) t) eqn:E; cbn [negb]; [exact IH|]. cbn [existsb]. unfold smatch at 1. rewrite E. cbn. exact IH. }
+    rewrite H. reflexivity.
+  - unfold pub_rec. cbn [s_subs s_conn].
+    assert (H : existsb (smatch self t) (filter (fun k => negb (N.eqb (sub_topic k) t)) (s_subs (get id (sess s)))) = false).
+    { induction (s_subs (get id (sess s))) as [|k l IH]; [reflexivity|]. cbn [filter].
+      destruct (N.eqb (sub_topic k) t) eqn:E; cbn [negb]; [exact IH|]. cbn [existsb]. unfold smatch at 1. rewrite E. cbn. exact IH. }
+    rewrite H. reflexivity.
+Qed.
+
 (* ---------- Stop ---------- *)
 
 Definition stop_step (acc : st * list out) (ir : sid * srec) : st * list out :=
